@@ -1,4 +1,6 @@
 import GlueVerif.Lemmas.ArrayUtil
+import GlueVerif.Lemmas.C20Combine
+import GlueVerif.Lemmas.C20Loop
 /-!
 # C20 — chunk, slice and broadcast helpers are exact
 
@@ -15,5 +17,51 @@ theorem findChunkShape_spec (shape : List Nat) (nMax : Nat) (hn : 0 < nMax)
   Lemmas.specFcs_findChunkShape shape nMax hn hs
 
 example : (∀ s ∈ [3, 4, 5], 0 < s) ∧ 0 < 7 ∧ findChunkShape [3, 4, 5] 7 = [1, 1, 5] := by decide
+
+end GlueVerif.C20
+
+-- ## combine_slices and loop refinement (b-C20p)
+namespace GlueVerif.C20
+open GlueVerif.ArrayUtil
+
+/-- `combine_slices` is exact for all inputs: for any two normalised slices with positive steps
+(no range restriction on the bounds is needed), the slice `(start, stop, step)` computed by the
+code, applied to the view `range(slice1)` (of length `rangeLen beg1 end1 step1`), selects exactly
+the positions of the elements of slice 1 that also belong to slice 2 — same positions, same order. -/
+theorem combineNorm_correct (beg1 end1 : Int) (step1 : Nat) (beg2 end2 : Int) (step2 : Nat)
+    (h1 : 0 < step1) (h2 : 0 < step2) :
+    let out := combineNorm beg1 end1 step1 beg2 end2 step2
+    applySliceTo (rangeLen beg1 end1 step1) out.1 out.2.1 out.2.2 =
+      combineSpec beg1 end1 step1 beg2 end2 step2 :=
+  Lemmas.C20Combine.combineNorm_correct beg1 end1 step1 beg2 end2 step2 h1 h2
+
+/-- The form the driver evaluates (`implok`): for every array length and every pair of Python
+slices whose `slice.indices(len)` succeed with positive steps, the model's `combine_slices` output
+satisfies `specCombine`. -/
+theorem combineSlices_spec (len : Nat) (s1 s2 : Option Int × Option Int × Option Int)
+    (b1 e1 st1 b2 e2 st2 : Int)
+    (hs1 : sliceIndices s1.1 s1.2.1 s1.2.2 len = some (b1, e1, st1))
+    (hs2 : sliceIndices s2.1 s2.2.1 s2.2.2 len = some (b2, e2, st2))
+    (h1 : 0 < st1) (h2 : 0 < st2) :
+    specCombine len s1 s2 (combineNorm b1 e1 st1.toNat b2 e2 st2.toNat) = true :=
+  Lemmas.C20Combine.specCombine_combineNorm len s1 s2 b1 e1 st1 b2 e2 st2 hs1 hs2 h1 h2
+
+example : sliceIndices (some 1) (some 20) (some 3) 25 = some (1, 20, 3) ∧
+    sliceIndices (some 2) (some (-7)) (some 2) 25 = some (2, 18, 2) ∧
+    combineNorm 1 20 3 2 18 2 = (1, 6, 2) ∧
+    combineSpec 1 20 3 2 18 2 = [1, 3, 5] := by decide
+
+/-- The literal `while` loop of `iterate_chunks` (odometer with carry and break, fuel
+`numChunks`) produces exactly the product-form chunk list, for every number of axes, every shape
+with positive sizes and every chunk shape with positive entries of the same length (the chunk
+entries need not fit within the shape). -/
+theorem iterLoop_eq_prod (shape chunk : List Nat) (hlen : chunk.length = shape.length)
+    (hs : ∀ s ∈ shape, 0 < s) (hc : ∀ c ∈ chunk, 0 < c) :
+    iterateChunksLoop shape chunk = iterateChunksProd shape chunk :=
+  Lemmas.C20Loop.iterLoop_eq_prod shape chunk hlen hs hc
+
+example : iterateChunksLoop [5, 3] [2, 2] =
+    [[(0, 2), (0, 2)], [(2, 4), (0, 2)], [(4, 5), (0, 2)],
+     [(0, 2), (2, 3)], [(2, 4), (2, 3)], [(4, 5), (2, 3)]] := by decide
 
 end GlueVerif.C20
